@@ -209,6 +209,7 @@ struct BlockingHandleInner<BS: BlockingCmdTaskSender> {
 impl<BS: BlockingCmdTaskSender> BlockingHandleInner<BS> {
     fn release_all(&self) {
         loop {
+            crate::verif_point!("release:try_recv");
             let cmd_task = match self.queue_receiver.try_recv() {
                 Ok(cmd_task) => cmd_task,
                 Err(err) => {
@@ -218,6 +219,7 @@ impl<BS: BlockingCmdTaskSender> BlockingHandleInner<BS> {
                     return;
                 }
             };
+            crate::verif_point!("release:redispatch");
             if let Err(err) = self.blocking_task_sender.send(cmd_task) {
                 error!(
                     "failed to send task when releasing blocking queue: {:?}",
@@ -280,6 +282,7 @@ where
         // Since CmdTaskSender::send has to be `&self`, we have to implement something similar ourselves.
         // Add `running_cmd` anyway to hold this "lock".
         // TODO: this counter increment (reader lock) might starve the waiting side (writer lock).
+        crate::verif_point!("send:enter");
         let counter = RefAutoCounter::new(&self.running_cmd);
         let BlockingState { blocking, term } = self.get_blocking_state();
         if !blocking {
@@ -299,6 +302,7 @@ where
             };
             if !blocking {
                 let counter_task = CounterTask::new(cmd_task, self.running_cmd.clone());
+                crate::verif_point!("send:inner");
                 return self.inner_sender.send(counter_task).map_err(|err| {
                     err.map_task(|task| BlockingHintTask::new(task.into_inner(), cmd_blocking_hint))
                 });
@@ -312,6 +316,7 @@ where
         }
         drop(counter);
 
+        crate::verif_point!("send:enqueue");
         if let Err(err) = self.queue_sender.send(cmd_task) {
             let cmd_task = err.into_inner();
             cmd_task.set_resp_result(Ok(Resp::Error(
@@ -337,6 +342,7 @@ where
     type Sender = BS;
 
     fn blocking_done(&self) -> bool {
+        crate::verif_point!("done:load");
         self.running_cmd.load(Ordering::SeqCst) == 0
     }
 
@@ -420,6 +426,7 @@ struct AutoCounter(Arc<AtomicI64>);
 
 impl AutoCounter {
     fn new(counter: Arc<AtomicI64>) -> Self {
+        crate::verif_point!("counter:inc");
         counter.fetch_add(1, Ordering::SeqCst);
         Self(counter)
     }
@@ -427,6 +434,7 @@ impl AutoCounter {
 
 impl Drop for AutoCounter {
     fn drop(&mut self) {
+        crate::verif_point!("counter:dec");
         // TODO: This order could be relaxed.
         self.0.fetch_sub(1, Ordering::SeqCst);
     }
@@ -436,6 +444,7 @@ struct RefAutoCounter<'a>(&'a AtomicI64);
 
 impl<'a> RefAutoCounter<'a> {
     fn new(counter: &'a AtomicI64) -> Self {
+        crate::verif_point!("refcounter:inc");
         counter.fetch_add(1, Ordering::SeqCst);
         Self(counter)
     }
@@ -443,6 +452,7 @@ impl<'a> RefAutoCounter<'a> {
 
 impl<'a> Drop for RefAutoCounter<'a> {
     fn drop(&mut self) {
+        crate::verif_point!("refcounter:dec");
         // TODO: This order could be relaxed.
         self.0.fetch_sub(1, Ordering::SeqCst);
     }
